@@ -5,8 +5,8 @@ Import ListNotations.
 From YP Require Import Base.Str Term.Term Unify.Unify Lang.Ast Comp.IR Comp.CompileBody Comp.CompileClause Comp.CompileTotal
   Sem.Res Sem.RefSem Sem.IRSem Sem.ControlCorrect Sem.Machine Sem.ClauseSem Sem.ProgramCorrect Sem.SpecLemmas.
 
-(* For every clause body with cuts in transparent positions (top level, branches of a disjunction,
-   then/else branches: noc b), for every interpretation of the called goals (all solution counts) and
+(* For every clause body (cuts at top level, in branches of a disjunction, in then/else branches; a cut inside
+   a condition or under \+ is local to it), for every interpretation of the called goals (all solution counts) and
    whatever the label counter is: the emitted code (for-loops, `return` for cut, the doBreak protocol)
    yields exactly the answers of the reference semantics in order and ends by `return` exactly when the
    reference ends by cut. *)
@@ -14,7 +14,7 @@ Theorem C05_cut_code_correct : forall (S : Type) (I : str -> list sterm -> S -> 
   (J : expr -> S -> list S * bool) (assign : str -> expr -> S -> S),
   (forall f args s, J (query_expr f args) s = I f args s) ->
   forall n b cnt code cnt',
-  comp n b cnt = Some (code, cnt') -> nomark b = true -> noc b = true ->
+  comp n b cnt = Some (code, cnt') -> nomark b = true ->
   forall s, (let '(ys, k) := run_function J assign code s in (ys, fin_of_compl k)) = sem I b s.
 Proof. exact control_correct_function. Qed.
 Print Assumptions C05_cut_code_correct.
